@@ -3,7 +3,7 @@ From Hio Require Import Base.Prelude Model.Idle.
 From Coq Require Import ZifyBool.
 Local Open Scope Z_scope.
 
-(* while open and not persisted, the deadline is exactly the latest traffic plus the configured tymeout *)
+(* while open and never persisted, the deadline is exactly the latest moment bytes moved plus the configured tymeout *)
 Definition Inv (T : Z) (c : conn) : Prop :=
   closed c = false ->
   (persisted c = false -> tmo c = T /\ sp c = last c + T /\ st c = last c) /\
@@ -12,76 +12,148 @@ Definition Inv (T : Z) (c : conn) : Prop :=
 Lemma inv_accept T t0 : Inv T (accept T t0).
 Proof. intros _. cbn. split; [auto|discriminate]. Qed.
 
-Lemma inv_pass T now a c : Inv T c -> Inv T (pass now a c).
+Lemma inv_refresh T now c : Inv T c -> Inv T (refresh now c).
 Proof.
-  intros I. unfold pass. destruct (closed c) eqn:Ec; [exact I|].
-  destruct ((0 <? tmo c) && expired now c) eqn:Ex; [intros H; discriminate H|].
-  destruct (I Ec) as [I1 I2].
-  intros _. destruct (persisted c) eqn:Ep.
-  - specialize (I2 eq_refl).
-    destruct a; cbn [has_traffic]; try destruct (0 <? chunks)%N; cbn; rewrite ?Ep; split; auto; discriminate.
-  - destruct (I1 eq_refl) as (H1 & H2 & H3).
-    destruct a; cbn [has_traffic]; try destruct (0 <? chunks)%N; cbn; rewrite ?Ep;
-      split; try discriminate; auto; intros _; repeat split; auto; lia.
+  intros I Ec. cbn in *. destruct (I Ec) as [I1 I2]. split; [|exact I2].
+  intros Ep. destruct (I1 Ep) as (H1 & H2 & H3). repeat split; auto; lia.
+Qed.
+Lemma inv_set_pend T n c : Inv T c -> Inv T (set_pend n c).
+Proof. intros I. exact I. Qed.
+Lemma inv_respond T c : Inv T c -> Inv T (respond c).
+Proof. intros I. exact I. Qed.
+Lemma inv_persist T c : Inv T c -> Inv T (persist c).
+Proof. intros I Ec. cbn in *. split; [discriminate|reflexivity]. Qed.
+Lemma inv_close T b c : Inv T (close b c).
+Proof. intros H. discriminate H. Qed.
+
+Lemma inv_requests T R a c : Inv T c -> Inv T (requests R a c).
+Proof.
+  intros I. unfold requests. destruct (responding c); [exact I|].
+  destruct a; auto using inv_persist, inv_respond, inv_set_pend.
+Qed.
+Lemma inv_sends T now cap c : Inv T c -> Inv T (sends now cap c).
+Proof.
+  intros I. unfold sends. destruct (0 <? N.min cap (pend c))%N; [|exact I].
+  apply inv_refresh, inv_set_pend, I.
 Qed.
 
-Lemma inv_run T sched : forall c, Inv T c -> Inv T (run c sched).
+Lemma inv_pass T R p c : Inv T c -> Inv T (pass R p c).
 Proof.
-  induction sched as [|[now a] r IH]; intros c I; simpl; [exact I|]. apply IH, inv_pass, I.
+  intros I. destruct p as [[now a] cap]. unfold pass. destruct (closed c); [exact I|].
+  destruct ((0 <? tmo c) && expired now c); [apply inv_close|].
+  set (c1 := if has_traffic a then refresh now c else c).
+  assert (I1 : Inv T c1) by (unfold c1; destruct (has_traffic a); [now apply inv_refresh|exact I]).
+  destruct (responding (requests R a c1) && (pend (requests R a c1) =? 0)%N); [apply inv_close|].
+  apply inv_sends, inv_requests, I1.
 Qed.
 
-Lemma closed_pass now a c : closed c = true -> pass now a c = c.
-Proof. intros H. unfold pass. now rewrite H. Qed.
-Lemma closed_run sched : forall c, closed c = true -> closed (run c sched) = true.
+Lemma inv_run T R sched : forall c, Inv T c -> Inv T (run R c sched).
+Proof. induction sched as [|p r IH]; intros c I; simpl; [exact I|]. apply IH, inv_pass, I. Qed.
+
+Lemma closed_pass R p c : closed c = true -> pass R p c = c.
+Proof. intros H. destruct p as [[now a] cap]. unfold pass. now rewrite H. Qed.
+Lemma closed_run R sched : forall c, closed c = true -> run R c sched = c.
 Proof.
-  induction sched as [|[now a] r IH]; intros c H; simpl; [exact H|].
+  induction sched as [|p r IH]; intros c H; simpl; [reflexivity|].
   rewrite closed_pass by exact H. now apply IH.
 Qed.
 
-Lemma last_pass_open now a c :
-  closed (pass now a c) = false -> last (pass now a c) = if has_traffic a then now else last c.
+Lemma run_app R s1 : forall s2 c, run R c (s1 ++ s2) = run R (run R c s1) s2.
+Proof. induction s1 as [|p s1 IH]; intros s2 c; simpl; [reflexivity|apply IH]. Qed.
+
+(* requests does not look at the tymer *)
+Lemma requests_refresh_pend R a now c : pend (requests R a (refresh now c)) = pend (requests R a c).
+Proof. unfold requests. cbn. destruct (responding c); [reflexivity|]. destruct a; reflexivity. Qed.
+Lemma requests_refresh_resp R a now c : responding (requests R a (refresh now c)) = responding (requests R a c).
+Proof. unfold requests. cbn [refresh responding]. destruct (responding c) eqn:E; [cbn; rewrite E; reflexivity|]. destruct a; cbn; rewrite ?E; reflexivity. Qed.
+Lemma requests_last R a c : last (requests R a c) = last c.
+Proof. unfold requests. destruct (responding c); [reflexivity|]. destruct a; reflexivity. Qed.
+
+(* the ghost [last] is the tyme of the latest pass in which bytes actually moved *)
+Lemma last_pass_open R p c :
+  closed (pass R p c) = false ->
+  last (pass R p c) = if moved R p c then fst (fst p) else last c.
 Proof.
-  unfold pass. destruct (closed c) eqn:Ec; [intros H; congruence|].
+  destruct p as [[now a] cap]. unfold pass, moved. cbn [fst].
+  destruct (closed c) eqn:Ec; [intros H; congruence|].
   destruct ((0 <? tmo c) && expired now c); [intros H; discriminate H|].
-  intros _. destruct a; cbn [has_traffic]; try destruct (0 <? chunks)%N; reflexivity.
+  destruct (has_traffic a) eqn:Ht; cbn [orb].
+  - rewrite requests_refresh_pend, requests_refresh_resp.
+    set (c2 := requests R a (refresh now c)).
+    assert (Hl : last c2 = now) by (unfold c2; now rewrite requests_last).
+    destruct (responding (requests R a c) && (pend (requests R a c) =? 0)%N); [intros H; discriminate H|].
+    intros _. unfold sends. destruct (0 <? N.min cap (pend c2))%N; [reflexivity|exact Hl].
+  - set (c2 := requests R a c).
+    assert (Hl : last c2 = last c) by (unfold c2; now rewrite requests_last).
+    destruct (responding c2 && (pend c2 =? 0)%N) eqn:Ed; [intros H; discriminate H|].
+    intros _. unfold sends. rewrite andb_true_r.
+    destruct (0 <? pend c2)%N eqn:Ep, (0 <? cap)%N eqn:Ecap; cbn [andb].
+    + replace (0 <? N.min cap (pend c2))%N with true by lia. reflexivity.
+    + replace (0 <? N.min cap (pend c2))%N with false by lia. exact Hl.
+    + replace (0 <? N.min cap (pend c2))%N with false by lia. exact Hl.
+    + replace (0 <? N.min cap (pend c2))%N with false by lia. exact Hl.
 Qed.
 
-Lemma last_run sched : forall c,
-  closed (run c sched) = false -> last (run c sched) = last_rx (last c) sched.
+(* a blocked pass (client silent, kernel accepts nothing) moves no bytes, whatever is pending *)
+Lemma moved_blocked R p c : blocked p = true -> moved R p c = false.
 Proof.
-  induction sched as [|[now a] r IH]; intros c H; simpl in *; [reflexivity|].
-  rewrite IH by exact H. f_equal. apply last_pass_open.
-  destruct (closed (pass now a c)) eqn:E; [|reflexivity].
-  rewrite closed_run in H by exact E. discriminate.
+  destruct p as [[now a] cap]. unfold blocked, moved. destruct a; try discriminate.
+  intros H. apply N.eqb_eq in H. subst cap. cbn. now rewrite andb_false_r.
+Qed.
+Lemma pend_blocked R p c :
+  blocked p = true -> closed (pass R p c) = false -> pend (pass R p c) = pend c.
+Proof.
+  destruct p as [[now a] cap]. unfold blocked. destruct a; try discriminate.
+  intros H. apply N.eqb_eq in H. subst cap. unfold pass. cbn [has_traffic].
+  destruct (closed c); [reflexivity|].
+  destruct ((0 <? tmo c) && expired now c); [intros H; discriminate H|].
+  unfold requests. replace (if responding c then c else c) with c by (destruct (responding c); reflexivity).
+  destruct (responding c && (pend c =? 0)%N); [intros H; discriminate H|].
+  intros _. unfold sends. replace (N.min 0 (pend c)) with 0%N by lia. reflexivity.
+Qed.
+Lemma blocked_run R quiet : forall c,
+  forallb blocked quiet = true -> closed (run R c quiet) = false ->
+  last (run R c quiet) = last c /\ pend (run R c quiet) = pend c.
+Proof.
+  induction quiet as [|p r IH]; intros c Hb Ho; simpl in *; [auto|].
+  apply andb_true_iff in Hb as [Hp Hr].
+  assert (Eo : closed (pass R p c) = false).
+  { destruct (closed (pass R p c)) eqn:E; [|reflexivity]. rewrite closed_run in Ho by exact E. congruence. }
+  destruct (IH _ Hr Ho) as [H1 H2]. rewrite H1, H2. split.
+  - rewrite last_pass_open by exact Eo. now rewrite moved_blocked.
+  - now apply pend_blocked.
 Qed.
 
-Lemma persisted_pass now a c : is_req a = false -> persisted (pass now a c) = persisted c.
+Lemma persisted_pass R p c : is_req (snd (fst p)) = false -> persisted (pass R p c) = persisted c.
 Proof.
-  intros H. unfold pass. destruct (closed c); [reflexivity|].
+  destruct p as [[now a] cap]. cbn [fst snd]. intros H. unfold pass. destruct (closed c); [reflexivity|].
   destruct ((0 <? tmo c) && expired now c); [reflexivity|].
-  destruct a; try discriminate; cbn [has_traffic]; try destruct (0 <? chunks)%N; reflexivity.
+  set (c1 := if has_traffic a then refresh now c else c).
+  assert (H1 : persisted c1 = persisted c) by (unfold c1; destruct (has_traffic a); reflexivity).
+  assert (H2 : persisted (requests R a c1) = persisted c).
+  { unfold requests. destruct (responding c1); [exact H1|]. destruct a; try discriminate; exact H1. }
+  destruct (responding (requests R a c1) && (pend (requests R a c1) =? 0)%N); [exact H2|].
+  unfold sends. destruct (0 <? N.min cap (pend (requests R a c1)))%N; exact H2.
 Qed.
-Lemma persisted_run sched : forall c, no_req sched = true -> persisted (run c sched) = persisted c.
+Lemma persisted_run R sched : forall c, no_req sched = true -> persisted (run R c sched) = persisted c.
 Proof.
-  induction sched as [|[now a] r IH]; intros c H; simpl in *; [reflexivity|].
+  induction sched as [|p r IH]; intros c H; simpl in *; [reflexivity|].
   apply andb_true_iff in H as [H1 H2]. rewrite IH by exact H2.
   apply persisted_pass. now apply negb_true_iff in H1.
 Qed.
 
-Lemma run_app s1 : forall s2 c, run c (s1 ++ s2) = run (run c s1) s2.
-Proof. induction s1 as [|[n b] s1 IH]; intros s2 c; simpl; [reflexivity|apply IH]. Qed.
-
-(* C12, first half: a non-persistent connection whose latest traffic (or accept) was at
-   tyme u is closed by any service pass at a tyme >= u + T, whatever happened before *)
-Theorem closes T t0 sched now a :
-  0 < T -> no_req sched = true -> last_rx t0 sched + T <= now ->
-  closed (pass now a (run (accept T t0) sched)) = true.
+(* C12, first half: a connection that never had a persistent request and on which no byte has
+   moved since tyme u = last c (its latest receive or successful send, or the accept) is closed
+   by any service pass at a tyme >= u + T, whatever happened before and whatever is pending *)
+Theorem closes T t0 R sched now a cap :
+  0 < T -> no_req sched = true ->
+  let c := run R (accept T t0) sched in
+  last c + T <= now -> closed (pass R (now, a, cap) c) = true.
 Proof.
-  intros HT Hn Hl. set (c := run (accept T t0) sched).
+  intros HT Hn c Hl.
   destruct (closed c) eqn:Ec; [now rewrite closed_pass|].
   assert (I : Inv T c) by apply inv_run, inv_accept.
   assert (Hp : persisted c = false) by (unfold c; now rewrite persisted_run).
-  assert (Hlast : last c = last_rx t0 sched) by (unfold c; now rewrite last_run).
   destruct (I Ec) as [I1 _]. destruct (I1 Hp) as (H1 & H2 & _).
   unfold pass. rewrite Ec.
   assert (E : (0 <? tmo c) && expired now c = true).
@@ -89,100 +161,168 @@ Proof.
   now rewrite E.
 Qed.
 
-(* ... and it stays closed *)
-Theorem closes_for_good T t0 sched now a rest :
-  0 < T -> no_req sched = true -> last_rx t0 sched + T <= now ->
-  closed (run (accept T t0) (sched ++ (now, a) :: rest)) = true.
+Theorem closes_for_good T t0 R sched now a cap rest :
+  0 < T -> no_req sched = true ->
+  last (run R (accept T t0) sched) + T <= now ->
+  closed (run R (accept T t0) (sched ++ (now, a, cap) :: rest)) = true.
 Proof.
-  intros HT Hn Hl. rewrite run_app. simpl. apply closed_run. now apply closes.
+  intros HT Hn Hl. rewrite run_app. simpl.
+  pose proof (closes T t0 R sched now a cap HT Hn Hl) as H.
+  now rewrite closed_run.
 Qed.
 
-(* ... and not earlier *)
-Lemma safe_gen T sched : forall c,
-  closed c = false -> Inv T c -> busy T (last c) sched -> closed (run c sched) = false.
+Lemma no_req_app s1 s2 : no_req (s1 ++ s2) = no_req s1 && no_req s2.
+Proof. unfold no_req. apply forallb_app. Qed.
+Lemma blocked_no_req quiet : forallb blocked quiet = true -> no_req quiet = true.
 Proof.
-  induction sched as [|[now a] r IH]; intros c Ec I B; simpl in *; [exact Ec|].
+  induction quiet as [|[[now a] cap] r IH]; simpl; [reflexivity|].
+  intros H. apply andb_true_iff in H as [H1 H2]. rewrite (IH H2), andb_true_r.
+  destruct a; try discriminate; reflexivity.
+Qed.
+
+(* ... in particular with output pending and only blocked send attempts since: after any
+   history [sched] and any number of passes in which the client is silent and the kernel
+   accepts nothing, the pass at tyme >= last + T closes the connection, and until then
+   neither the deadline reference nor the pending output changed *)
+Theorem closes_blocked T t0 R sched quiet now a cap :
+  0 < T -> no_req sched = true -> forallb blocked quiet = true ->
+  let c := run R (accept T t0) sched in
+  last c + T <= now ->
+  closed (pass R (now, a, cap) (run R c quiet)) = true /\
+  (closed (run R c quiet) = false -> last (run R c quiet) = last c /\ pend (run R c quiet) = pend c).
+Proof.
+  intros HT Hn Hb c Hl. split; [|now apply blocked_run].
+  destruct (closed (run R c quiet)) eqn:Ec; [now rewrite closed_pass|].
+  destruct (blocked_run R quiet c Hb Ec) as [H1 _].
+  unfold c in *. rewrite <- run_app in *.
+  apply closes; [exact HT| |lia].
+  rewrite no_req_app, Hn. now apply blocked_no_req.
+Qed.
+
+(* C12, second half *)
+Lemma timedout_closed_run R sched c : closed c = true -> timedout (run R c sched) = timedout c.
+Proof. intros H. now rewrite closed_run. Qed.
+
+Lemma safe_gen T R sched : forall c,
+  timedout c = false -> Inv T c -> busy R T c sched -> timedout (run R c sched) = false.
+Proof.
+  induction sched as [|p r IH]; intros c Et I B; simpl in *; [exact Et|].
   destruct B as [B1 B2].
-  assert (Eo : closed (pass now a c) = false).
-  { unfold pass. rewrite Ec. destruct (I Ec) as [I1 I2].
-    destruct (persisted c) eqn:Ep.
-    - rewrite (I2 eq_refl). cbn. destruct a; cbn [has_traffic]; try destruct (0 <? chunks)%N; cbn; exact Ec.
-    - destruct (I1 eq_refl) as (H1 & H2 & _).
-      assert (E : (0 <? tmo c) && expired now c = false).
-      { unfold expired. apply andb_false_iff. right. lia. }
-      rewrite E. destruct a; cbn [has_traffic]; try destruct (0 <? chunks)%N; cbn; exact Ec. }
-  apply IH; [exact Eo|now apply inv_pass|].
-  now rewrite last_pass_open.
+  destruct (closed c) eqn:Ec.
+  { rewrite closed_pass by exact Ec. rewrite closed_run by exact Ec. exact Et. }
+  apply IH; [|now apply inv_pass|exact B2].
+  destruct p as [[now a] cap]. cbn [fst] in B1. specialize (B1 eq_refl). unfold pass. rewrite Ec.
+  destruct (I Ec) as [I1 I2].
+  assert (E : (0 <? tmo c) && expired now c = false).
+  { destruct (persisted c) eqn:Ep.
+    - rewrite (I2 eq_refl). reflexivity.
+    - destruct (I1 eq_refl) as (H1 & H2 & _). unfold expired. apply andb_false_iff. right. lia. }
+  rewrite E.
+  set (c1 := if has_traffic a then refresh now c else c).
+  assert (H1 : timedout c1 = false) by (unfold c1; destruct (has_traffic a); exact Et).
+  assert (H2 : timedout (requests R a c1) = false).
+  { unfold requests. destruct (responding c1); [exact H1|]. destruct a; exact H1. }
+  destruct (responding (requests R a c1) && (pend (requests R a c1) =? 0)%N); [reflexivity|].
+  unfold sends. destruct (0 <? N.min cap (pend (requests R a c1)))%N; exact H2.
 Qed.
 
-(* C12, second half: if every service pass comes less than T after the latest traffic
-   before it (traffic in every tymeout window), the connection is never closed for idleness *)
-Theorem safe T t0 sched : busy T t0 sched -> closed (run (accept T t0) sched) = false.
+(* if every service pass of a still open connection comes less than T after the latest pass in
+   which bytes moved, it is never closed for idleness (it may be closed because its response is finished) *)
+Theorem safe T t0 R sched :
+  busy R T (accept T t0) sched -> timedout (run R (accept T t0) sched) = false.
 Proof. intros B. apply (safe_gen T); [reflexivity|apply inv_accept|exact B]. Qed.
 
-(* every prefix too: never closed at any moment *)
-Lemma busy_app T s1 : forall t s2, busy T t (s1 ++ s2) -> busy T t s1.
+Lemma busy_app R T s1 : forall c s2, busy R T c (s1 ++ s2) -> busy R T c s1.
 Proof.
-  induction s1 as [|[now a] r IH]; intros t s2; simpl; [tauto|]. intros [H1 H2]. split; [exact H1|eauto].
+  induction s1 as [|p r IH]; intros c s2; simpl; [tauto|]. intros [H1 H2]. split; [exact H1|eauto].
 Qed.
-Theorem safe_always T t0 s1 s2 : busy T t0 (s1 ++ s2) -> closed (run (accept T t0) s1) = false.
+Theorem safe_always T t0 R s1 s2 :
+  busy R T (accept T t0) (s1 ++ s2) -> timedout (run R (accept T t0) s1) = false.
 Proof. intros B. apply safe. eapply busy_app, B. Qed.
 
-(* a persistent connection, and a server with tymeout <= 0, never time out *)
-Lemma never_gen sched : forall c,
-  closed c = false -> tmo c <= 0 -> closed (run c sched) = false /\ tmo (run c sched) <= 0.
+(* a connection whose tymeout is <= 0 (server tymeout <= 0, or zeroed by a persistent request) never times out *)
+Lemma tmo_pass_le R p c : tmo c <= 0 -> tmo (pass R p c) <= 0.
 Proof.
-  induction sched as [|[now a] r IH]; intros c Ec Ht; simpl; [auto|].
-  apply IH.
-  - unfold pass. rewrite Ec. replace (0 <? tmo c) with false by lia. cbn.
-    destruct a; cbn [has_traffic]; try destruct (0 <? chunks)%N; cbn; exact Ec.
-  - unfold pass. rewrite Ec. replace (0 <? tmo c) with false by lia. cbn.
-    destruct a; cbn [has_traffic]; try destruct (0 <? chunks)%N; cbn; lia.
+  intros H. destruct p as [[now a] cap]. unfold pass. destruct (closed c); [exact H|].
+  destruct ((0 <? tmo c) && expired now c); [exact H|].
+  set (c1 := if has_traffic a then refresh now c else c).
+  assert (H1 : tmo c1 <= 0) by (unfold c1; destruct (has_traffic a); exact H).
+  assert (H2 : tmo (requests R a c1) <= 0).
+  { unfold requests. destruct (responding c1); [exact H1|]. destruct a; cbn; try exact H1; lia. }
+  destruct (responding (requests R a c1) && (pend (requests R a c1) =? 0)%N); [exact H2|].
+  unfold sends. destruct (0 <? N.min cap (pend (requests R a c1)))%N; exact H2.
 Qed.
-Theorem disabled T t0 sched : T <= 0 -> closed (run (accept T t0) sched) = false.
-Proof. intros H. apply never_gen; [reflexivity|exact H]. Qed.
-
-Theorem persistent_never T t0 s1 k now s2 :
-  closed (run (accept T t0) (s1 ++ [(now, Req k)])) = false ->
-  closed (run (accept T t0) (s1 ++ (now, Req k) :: s2)) = false.
+Lemma timedout_pass_le R p c : tmo c <= 0 -> timedout c = false -> timedout (pass R p c) = false.
 Proof.
-  rewrite !run_app. simpl. set (c := run (accept T t0) s1). intros H.
-  apply never_gen; [exact H|].
-  unfold pass in *. destruct (closed c) eqn:Ec; [congruence|].
-  destruct ((0 <? tmo c) && expired now c); [cbn in H; discriminate H|].
-  cbn. lia.
+  intros H Et. destruct p as [[now a] cap]. unfold pass. destruct (closed c); [exact Et|].
+  replace (0 <? tmo c) with false by lia. cbn [andb].
+  set (c1 := if has_traffic a then refresh now c else c).
+  assert (H1 : timedout c1 = false) by (unfold c1; destruct (has_traffic a); exact Et).
+  assert (H2 : timedout (requests R a c1) = false).
+  { unfold requests. destruct (responding c1); [exact H1|]. destruct a; exact H1. }
+  destruct (responding (requests R a c1) && (pend (requests R a c1) =? 0)%N); [reflexivity|].
+  unfold sends. destruct (0 <? N.min cap (pend (requests R a c1)))%N; exact H2.
+Qed.
+Lemma never_gen R sched : forall c,
+  tmo c <= 0 -> timedout c = false -> timedout (run R c sched) = false.
+Proof.
+  induction sched as [|p r IH]; intros c H Et; simpl; [exact Et|].
+  apply IH; [now apply tmo_pass_le|now apply timedout_pass_le].
+Qed.
+Theorem disabled T t0 R sched : T <= 0 -> timedout (run R (accept T t0) sched) = false.
+Proof. intros H. apply never_gen; [exact H|reflexivity]. Qed.
+
+Theorem persistent_never T t0 R s1 s2 :
+  let c := run R (accept T t0) s1 in
+  persisted c = true -> timedout c = false -> timedout (run R (accept T t0) (s1 ++ s2)) = false.
+Proof.
+  intros c Hp Ht. rewrite run_app. fold c.
+  destruct (closed c) eqn:Ec; [now rewrite closed_run|].
+  assert (I : Inv T c) by apply inv_run, inv_accept.
+  destruct (I Ec) as [_ I2]. apply never_gen; [rewrite (I2 Hp); lia|exact Ht].
 Qed.
 
 (* ---------- "traffic in every window", stated with witnesses ---------- *)
-(* pass tymes never go backwards, starting from t *)
-Fixpoint sorted_from (t : Z) (sched : list (Z * action)) : Prop :=
+Fixpoint sorted_from (t : Z) (sched : list step) : Prop :=
   match sched with
   | [] => True
-  | (now, a) :: r => t <= now /\ sorted_from now r
+  | p :: r => t <= fst (fst p) /\ sorted_from (fst (fst p)) r
   end.
-(* for every pass there is an earlier traffic tyme (or the accept) less than T before it *)
-Fixpoint windowed (T : Z) (seen : list Z) (sched : list (Z * action)) : Prop :=
+(* for every pass there is an earlier receive tyme (or the accept) less than T before it *)
+Fixpoint windowed (T : Z) (seen : list Z) (sched : list step) : Prop :=
   match sched with
   | [] => True
-  | (now, a) :: r => (exists u, In u seen /\ now - u < T) /\
-                     windowed T (if has_traffic a then now :: seen else seen) r
+  | p :: r => (exists u, In u seen /\ fst (fst p) - u < T) /\
+              windowed T (if has_traffic (snd (fst p)) then fst (fst p) :: seen else seen) r
   end.
 
-Lemma windowed_busy T sched : forall t lo seen,
-  (forall u, In u seen -> u <= t) -> t <= lo -> sorted_from lo sched -> windowed T seen sched -> busy T t sched.
+Lemma busy_closed R T sched : forall c, closed c = true -> busy R T c sched.
 Proof.
-  induction sched as [|[now a] r IH]; intros t lo seen Hs Hlo So W; simpl in *; [exact I|].
-  destruct So as [S1 S2]. destruct W as [[u [Hu Hw]] W2]. split.
-  - specialize (Hs u Hu). lia.
-  - destruct (has_traffic a).
-    + apply (IH now now (now :: seen)); auto; try lia.
-      intros v [<-|Hv]; [lia|]. specialize (Hs v Hv). lia.
-    + apply (IH t now seen); auto. lia.
+  induction sched as [|p r IH]; intros c H; simpl; [exact I|].
+  split; [intros E; congruence|]. rewrite closed_pass by exact H. now apply IH.
 Qed.
 
-Theorem safe_windows T t0 sched :
-  sorted_from t0 sched -> windowed T [t0] sched -> closed (run (accept T t0) sched) = false.
+Lemma moved_traffic R p c : has_traffic (snd (fst p)) = true -> moved R p c = true.
+Proof. destruct p as [[now a] cap]. cbn. intros ->. reflexivity. Qed.
+
+Lemma windowed_busy R T sched : forall c lo seen,
+  (forall u, In u seen -> u <= last c) -> last c <= lo -> sorted_from lo sched -> windowed T seen sched ->
+  busy R T c sched.
 Proof.
-  intros S W. apply safe. apply (windowed_busy T sched t0 t0 [t0]); auto; try lia.
-  intros u [<-|[]]. lia.
+  induction sched as [|p r IH]; intros c lo seen Hs Hlo So W; simpl in *; [exact I|].
+  destruct So as [S1 S2]. destruct W as [[u [Hu Hw]] W2]. split.
+  - intros _. specialize (Hs u Hu). lia.
+  - destruct (closed (pass R p c)) eqn:Eo; [now apply busy_closed|].
+    pose proof (last_pass_open R p c Eo) as Hl.
+    apply (IH _ (fst (fst p)) (if has_traffic (snd (fst p)) then fst (fst p) :: seen else seen)); auto.
+    + intros v Hv. rewrite Hl. destruct (has_traffic (snd (fst p))) eqn:Ht.
+      * rewrite moved_traffic by exact Ht. destruct Hv as [<-|Hv]; [lia|]. specialize (Hs v Hv). lia.
+      * specialize (Hs v Hv). destruct (moved R p c); lia.
+    + rewrite Hl. destruct (moved R p c); lia.
+Qed.
+
+Theorem safe_windows T t0 R sched :
+  sorted_from t0 sched -> windowed T [t0] sched -> timedout (run R (accept T t0) sched) = false.
+Proof.
+  intros S W. apply safe. apply (windowed_busy R T sched (accept T t0) t0 [t0]); auto; cbn; try lia.
 Qed.
